@@ -569,7 +569,11 @@ def check(prop, tier, seed, replay=None):
         for eng, ops, mcase, mline in impl_fail:
             key = (eng, mcase)
             if key not in seen_cases:
-                seen_cases[key] = still_fails(eng, case_text(ops, mcase), prop, "monitor") if mcase.startswith("#case") else True
+                # at most a handful of isolation re-runs; once one reproduces the rest is accepted
+                if any(seen_cases.values()) or len(seen_cases) >= 8:
+                    seen_cases[key] = True
+                else:
+                    seen_cases[key] = still_fails(eng, case_text(ops, mcase), prop, "monitor") if mcase.startswith("#case") else True
             if seen_cases[key]:
                 confirmed.append((eng, ops, mcase, mline))
             else:
@@ -579,7 +583,10 @@ def check(prop, tier, seed, replay=None):
         for eng, ops, d in corr_broken:
             key = (eng, d[0], "d")
             if key not in seen_cases:
-                seen_cases[key] = still_fails(eng, case_text(ops, d[0]), prop, "disagree") if d[0].startswith("#case") else True
+                if any(v for k, v in seen_cases.items() if len(k) == 3) or len(seen_cases) >= 16:
+                    seen_cases[key] = True
+                else:
+                    seen_cases[key] = still_fails(eng, case_text(ops, d[0]), prop, "disagree") if d[0].startswith("#case") else True
             if seen_cases[key]:
                 confirmed.append((eng, ops, d))
             else:
